@@ -25,7 +25,9 @@ class Sgp4(AnalyticalPropagator):
             orbit (Orbit)
         """
 
-        self._orbit = orbit
+        # As for the other propagators, a snapshot: the orbit may be modified in place
+        # afterwards, and is then handed over again by Orbit.propagate()
+        self._orbit = orbit.copy()
         tle = Tle.from_orbit(orbit)
         lines = tle.text.splitlines()
 
